@@ -179,21 +179,21 @@ def m_isinstance(eng, st, args, kw, node):
     for values of kind ('opaque','lambda')."""
     v = args[0]
     tnode = node.args[1]
-    parts = eng.resolve_dotted(tnode)
-    tname = parts[-1] if parts else None
-    if isinstance(v.k, tuple) and v.k[0] == 'opaque' and v.k[1] == 'lambda_param':
-        tag = eng.uf('pytype', I, I)(v.t)
-        code = {'float': 1, 'ndarray': 2, 'int': 3}.get(tname)
-        if code is None:
+    tnodes = list(tnode.elts) if isinstance(tnode, ast.Tuple) else [tnode]
+    out = []
+    for tn in tnodes:
+        parts = eng.resolve_dotted(tn)
+        tname = parts[-1] if parts else None
+        if tname in ('float', 'floating'):
+            # np.floating covers NumPy float scalars; a Python float is modelled by kind real
+            out.append(v.k == 'real')
+        elif tname in ('int', 'integer'):
+            out.append(v.k in ('int', 'bool'))
+        elif tname == 'ndarray':
+            out.append(isinstance(v.k, tuple) and v.k[0] == 'arr')
+        else:
             raise Unsupported("isinstance against " + str(tname))
-        return vbool(tag == code)
-    if tname == 'float':
-        return vbool(v.k == 'real')
-    if tname == 'int':
-        return vbool(v.k in ('int', 'bool'))
-    if tname == 'ndarray':
-        return vbool(isinstance(v.k, tuple) and v.k[0] == 'arr')
-    raise Unsupported("isinstance against " + str(tname))
+    return vbool(any(out))
 
 
 def psum(eng, st, arr=None, length=None):
@@ -264,6 +264,17 @@ def m_list(eng, st, args, kw, node):
         # fresh list with the same elements
         return eng.mk_list(st, v.k[1], eng.list_len(st, v), eng.list_arr(st, v))
     raise Unsupported("list() of %r" % (v.k,))
+
+
+@model('copy.deepcopy')
+def m_copy_deepcopy(eng, st, args, kw, node):
+    v = args[0]
+    used(eng, "copy.deepcopy(x): x itself for immutable scalars, a fresh array with the same contents for an ndarray")
+    if v.k in ('int', 'real', 'bool', 'none', 'str'):
+        return v
+    if isinstance(v.k, tuple) and v.k[0] == 'arr':
+        return np_copy(eng, st, [v], {}, node)
+    raise Unsupported("copy.deepcopy of %r" % (v.k,))
 
 
 @model('copy.copy')
